@@ -39,7 +39,7 @@ MANIFEST = {
             "never change the key), observation_identity_exact (equal keys <=> equal cache-key options: numbers, lengths, "
             "values, order), reregistration_same_target_replaces (run level: never two entries of a session whose requests "
             "have the same cache-key options, whatever tokens/ETags), registration_of_other_target_keeps; FETCH registrations "
-            "(RFC 8132): reqKey = method code, FETCH payload with its length, cache-key options (fix a4f9bc4); "
+            "(RFC 8132): reqKey = method code, FETCH payload with its length, cache-key options (fix 3034572); "
             "request_identity_exact (equal keys <=> same method, same cache-key options and for FETCH the same payload), "
             "reregistration_replaces_requests (run level: two entries of a session never stem from the same request), "
             "registration_of_other_request_keeps, fetch_observations_with_different_payloads_are_distinct, "
